@@ -47,7 +47,12 @@ pub fn meta(tier: Tier) -> CheckMeta {
                no panic on any pipeline thread. distinct = hash(config, submission order); non-trivial = \
                submission order differed from creation order and >= 2 batches wrote one key.",
         assumptions: vec!["every created batch is submitted (a batch that is never submitted is C05's subject)".into()],
-        parts: vec![PartSpec { name: "native", nshards: 16, budget_s: tier.pick(300, 2400), env: vec![], program: None, prepare: None, sanitizer: None }],
+        parts: {
+            let mut parts = vec![PartSpec { name: "native", nshards: 16, budget_s: tier.pick(300, 2400), env: vec![], program: None, prepare: None, sanitizer: None }];
+            if tier == Tier::Thorough { parts.push(crate::sup::sanitizer_part("miri", 8, tier.pick(900, 2400))); }
+            if tier == Tier::Thorough { parts.push(crate::sup::sanitizer_part("tsan", 8, 2400)); }
+            parts
+        },
         must_be_nonzero: vec![("lifetimes_submission_differs_from_creation", "submission order never differed from creation order"), ("keys_written_by_several_batches", "no overlapping writes")],
     }
 }
